@@ -197,7 +197,7 @@ m("c18-delete-malformed-depth-guard", "C18", "core/src/proof/multi_proof.rs",
 m("c18-weaken-malformed-guard", "C18", "core/src/proof/multi_proof.rs",
   "    if common_bits > siblings.len()\n        || paths\n            .iter()\n            .any(|item| item.terminal.path().len() <= common_len)\n    {\n        return Err(MultiProofVerificationError::MalformedProof);\n    }\n",
   "",
-  "KNOWN-MISS")  # documented limit: guards are identified by (function, error variant); other MalformedProof guards still dominate the site
+  "panicfree|proof::multi_proof::verify_range|guarded|call:index|[common_bits..]")
 m("c18-new-index-in-confirm", "C18", "core/src/proof/path_proof.rs",
   "        self.in_scope(&expected_leaf.key_path)\n            .map(|_| self.terminal() == Some(expected_leaf))",
   "        let _b = expected_leaf.key_path[self.siblings.len()];\n        self.in_scope(&expected_leaf.key_path)\n            .map(|_| self.terminal() == Some(expected_leaf))",
